@@ -317,8 +317,9 @@ func dischargeVC(x *Exec, o *Obligation, opts verifyOpts) (Result, bool) {
 				rr = c.(Result)
 			} else {
 				rt := opts.timeout
-				if rt > 4*time.Second {
-					rt = 4 * time.Second
+				if rt > 1500*time.Millisecond {
+					// the instances this attempt is for are found at once or not at all
+					rt = 1500 * time.Millisecond
 				}
 				rr = prove(raw, rt)
 				if rr.Status == "unsat" {
